@@ -464,6 +464,8 @@ class PCBO(PUBO):
         if len(args) == 1 and isinstance(args[0], self.__class__):
             for k, v in args[0]._constraints.items():
                 self._constraints.setdefault(k, []).extend(v)
+            # the ancillas of the merged model are now terms of this one
+            self._ancilla = max(self._ancilla, args[0]._ancilla)
 
     def __imul__(self, other):
         """__imul__.
